@@ -26,11 +26,11 @@ V_REQUIRES(digest == NULL || digest_size <= 0 || __CPROVER_r_ok(digest, digest_s
 V_REQUIRES(digest_uncompressed == NULL || digest_size <= 0 || __CPROVER_r_ok(digest_uncompressed, digest_size))
 V_REQUIRES(digest_size >= 0 && digest_size <= 64)
 V_ASSIGNS(V_RX_ASSIGNS zck != NULL: zck->error_state; index != NULL: index->digest_size, index->first, index->last, index->count, index->length; index != NULL && index->last != NULL: index->last->next)
-V_ENSURES(!__CPROVER_return_value || (zck != NULL && V_OLD(zck->error_state) == 0 && zck->error_state == 0 && index != NULL && digest_size != 0)) /*@C10,C03.index_new_chunk.succeeds_only_on_usable_arguments*/
+V_ENSURES(!__CPROVER_return_value || (zck != NULL && V_OLD(zck->error_state) == 0 && zck->error_state == 0 && index != NULL && digest_size != 0)) /*@C10.index_new_chunk.succeeds_only_on_usable_arguments*/
 V_ENSURES(!__CPROVER_return_value || (index->count == V_OLD(index->count) + 1 && index->length == V_OLD(index->length) + comp_size && index->digest_size == (size_t)digest_size)) /*@C10.index_new_chunk.count_and_length_advance*/
 V_ENSURES(!__CPROVER_return_value || (__CPROVER_is_fresh(index->last, sizeof(zckChunk)) && index->last->src == src && index->last->comp_length == comp_size && index->last->length == orig_size && index->last->valid == (int)finished && index->last->next == NULL && index->last->start == V_OLD(index->length) && index->last->number == V_OLD(index->count) && index->last->zck == zck)) /*@C10,C04.index_new_chunk.tail_entry_names_source_and_sizes*/
 V_ENSURES(!__CPROVER_return_value || (V_OLD(index->first) == NULL ? index->first == index->last : (index->first == V_OLD(index->first) && V_OLD(index->last)->next == index->last))) /*@C10.index_new_chunk.appended_at_tail*/
-V_ENSURES(!__CPROVER_return_value || (__CPROVER_is_fresh(index->last->digest, digest_size) && __CPROVER_is_fresh(index->last->digest_uncompressed, digest_size) && index->last->digest_size == (digest == NULL ? 0 : digest_size))) /*@C10,C03.index_new_chunk.entry_owns_digest_copies*/
+V_ENSURES(!__CPROVER_return_value || (__CPROVER_is_fresh(index->last->digest, digest_size) && __CPROVER_is_fresh(index->last->digest_uncompressed, digest_size) && index->last->digest_size == (digest == NULL ? 0 : digest_size))) /*@C10.index_new_chunk.entry_owns_digest_copies*/
 V_ENSURES(__CPROVER_return_value || index == NULL || (index->first == V_OLD(index->first) && index->last == V_OLD(index->last) && index->count == V_OLD(index->count) && index->length == V_OLD(index->length))) /*@C10.index_new_chunk.failure_appends_nothing*/
 #ifdef VERIF_NO_OOM
 /* variant assumption "no allocation fails": then the listed argument conditions are the only failures */
@@ -67,7 +67,7 @@ V_ASSIGNS(range->next != NULL: range->next->prev)
 V_FREES(range)
 V_ENSURES(__CPROVER_return_value == V_OLD(range->next)) /*@C10.range_remove.returns_successor*/
 V_ENSURES(__CPROVER_return_value == NULL || __CPROVER_return_value->prev == V_OLD(range->prev)) /*@C10.range_remove.successor_points_back_past_the_removed_node*/
-V_ENSURES(__CPROVER_was_freed(range)) /*@C10,C03.range_remove.node_freed*/
+V_ENSURES(__CPROVER_was_freed(range)) /*@C10.range_remove.node_freed*/
 ;
 
 int zck_get_range_count(zckRange *range)
